@@ -30,15 +30,15 @@ type c14Pres struct {
 	failing    bool // the wrapped handler / publisher fails for this message if it gets there
 }
 
-func c14Payload(t *simrt.Tape, keyIdx int, variant int) string {
-	// payloads around the 64 byte read limit: equal up to the limit => same key
+func c14Payload(limit int, keyIdx int, variant int) string {
+	// payloads around the read limit: equal up to the limit => same key
 	base := fmt.Sprintf("key-%02d-", keyIdx)
-	for len(base) < 64 {
+	for len(base) < limit {
 		base += string(rune('a' + (len(base)+keyIdx)%26))
 	}
 	switch variant {
 	case 0:
-		return base // exactly 64 bytes
+		return base // exactly as long as the limit
 	case 1:
 		return base + "tail-one" // differs beyond the limit only
 	default:
@@ -94,21 +94,27 @@ func c14Body(r *Run) {
 		window = time.Minute
 		r.Probe("default-repository-two-wraps")
 	}
+	// the read limit of the byte hashers: the minimum (64) or something that is not a multiple of any hash block size
+	limit := simrt.Pick(t, 64, 64, 65, 66, 100, 127)
 	switch hasher {
 	case 0:
-		d.KeyFactory = middleware.NewMessageHasherAdler32(64)
+		d.KeyFactory = middleware.NewMessageHasherAdler32(int64(limit))
 	case 1:
-		d.KeyFactory = middleware.NewMessageHasherSHA256(10) // below the minimum: 64 is used
+		if limit == 64 {
+			d.KeyFactory = middleware.NewMessageHasherSHA256(10) // below the minimum: 64 is used
+		} else {
+			d.KeyFactory = middleware.NewMessageHasherSHA256(int64(limit))
+		}
 	default:
 		d.KeyFactory = middleware.NewMessageHasherFromMetadataField("dedup")
 	}
-	r.Describe("window=%v decorator=%v hasher=%d keys=%d goroutines=%d waves=%d gaps(half windows)=%v", window, useDecorator, hasher, nKeys, nG, waves, gaps)
+	r.Describe("window=%v decorator=%v hasher=%d (read limit %d) keys=%d goroutines=%d waves=%d gaps(half windows)=%v", window, useDecorator, hasher, limit, nKeys, nG, waves, gaps)
 
 	// R4: hasher laws on the generated payloads
 	for k := 0; k < nKeys; k++ {
 		var keys []string
 		for v := 0; v < 3; v++ {
-			m := message.NewMessage("x", []byte(c14Payload(t, k, v)))
+			m := message.NewMessage("x", []byte(c14Payload(limit, k, v)))
 			m.Metadata.Set("dedup", fmt.Sprintf("field-key-%d", k))
 			key, kerr := d.KeyFactory(m)
 			if kerr != nil {
@@ -121,7 +127,7 @@ func c14Body(r *Run) {
 			r.Fail("C14.R4", "payloads equal up to the read limit got different keys", "hasher %d key index %d", hasher, k)
 		}
 		if hasher == 1 && k > 0 {
-			m := message.NewMessage("x", []byte(c14Payload(t, k-1, 0)))
+			m := message.NewMessage("x", []byte(c14Payload(limit, k-1, 0)))
 			prev, _ := d.KeyFactory(m)
 			if prev == keys[0] {
 				r.Fail("C14.R4", "SHA-256 hasher gave equal keys for payloads that differ within the read limit", "key index %d and %d", k-1, k)
@@ -185,7 +191,7 @@ func c14Body(r *Run) {
 	}
 	var present func(j job)
 	present = func(j job) {
-		payload := c14Payload(t, j.keyIdx, j.variant)
+		payload := c14Payload(limit, j.keyIdx, j.variant)
 		m := message.NewMessage(fmt.Sprintf("w%d-g%d", j.wave, j.g), []byte(payload))
 		m.Metadata.Set("dedup", fmt.Sprintf("field-key-%d", j.keyIdx))
 		if j.cancelledCtx {
